@@ -59,6 +59,9 @@ pub struct Case {
     pub s: Settings,
     /// Some: a control-file wrapper case (doc/s unused)
     pub control: Option<crate::props::c07c::ControlCase>,
+    /// Some((paragraph, field)): before reformatting, that field is set to the value it already has through
+    /// Paragraph::set - the document is then a live, edited object (rebuilt entry nodes), not a freshly parsed one
+    pub pre_edit: Option<(usize, usize)>,
 }
 
 pub fn apply_fmt(f: Fmt, v: &str) -> String {
@@ -399,6 +402,15 @@ pub fn check_case(case: &Case) -> CheckResult {
         Ok(d) => d,
         Err(e) => return fail("start-parses", format!("well-formed start document rejected: {:?}", e.to_string())),
     };
+    let text = match case.pre_edit {
+        Some((pk, fk)) => {
+            let f = &doc.paras[pk].fields[fk];
+            let mut h = d.paragraphs().nth(pk).ok_or_else(|| Failure { assertion: "infra/pre-edit".into(), message: "paragraph not found".into() })?;
+            h.set(&f.name, &f.value());
+            d.to_string()
+        }
+        None => text,
+    };
     match s.level {
         Level::Doc | Level::DocOnly => {
             let r = run_doc(&d, s);
@@ -475,7 +487,8 @@ pub fn gen_settings(t: &mut Tape) -> Settings {
         5 | 6 => Level::Para(t.below(4)),
         _ => Level::EntryNew(t.below(4)),
     };
-    let indent = if t.chance(1, 4) { Indentation::FieldNameLength } else { Indentation::Spaces(t.range(1, 8) as u32) };
+    // widths: usually 1-8, now and then far beyond what anybody formats with (fixed tables / buffers)
+    let indent = if t.chance(1, 4) { Indentation::FieldNameLength } else if t.chance(1, 12) { Indentation::Spaces(*t.pick(&[9u32, 16, 63, 64, 65, 100, 255, 256, 1000])) } else { Indentation::Spaces(t.range(1, 8) as u32) };
     Settings {
         level,
         indent,
@@ -578,7 +591,7 @@ impl PropImpl for C07 {
          multi-line value or >= 2 paragraphs and at least one non-default setting. Distinct by hash of (text, settings).".into()
     }
     fn expected_labels(&self) -> Vec<&'static str> {
-        vec!["level:document", "level:document-without-paragraph-function", "level:paragraph", "level:entry", "level:Control", "level:control-Source", "level:control-Binary", "indent:field-name-length", "indent:1", "immediate-empty-line:true", "one-liner:small", "one-liner:large", "pcmp:first-value", "pcmp:name-list", "ecmp:key", "ecmp:value-key", "ecmp:reverse-key", "fmt:identity", "fmt:one-per-line", "fmt:upper", "comment:between-fields", "comment:after-last-field", "comment:top", "comment:end", "whitespace-only-continuation-line", "control:substvar-in-relation-field", "control:uploaders", "control:paragraph-of-neither-kind"]
+        vec!["level:document", "level:document-without-paragraph-function", "level:paragraph", "level:entry", "level:Control", "level:control-Source", "level:control-Binary", "indent:field-name-length", "indent:1", "indent:more-than-64", "immediate-empty-line:true", "one-liner:small", "one-liner:large", "pcmp:first-value", "pcmp:name-list", "ecmp:key", "ecmp:value-key", "ecmp:reverse-key", "fmt:identity", "fmt:one-per-line", "fmt:upper", "comment:between-fields", "comment:after-last-field", "comment:top", "comment:end", "whitespace-only-continuation-line", "control:substvar-in-relation-field", "control:uploaders", "control:paragraph-of-neither-kind", "start:edited-live-document"]
     }
     fn budget(&self, tier: Tier) -> Budget {
         Budget { cases_per_lane: if tier == Tier::Quick { 30000 } else { 120000 }, tape_max: 700, cpu_s: 10 }
@@ -588,12 +601,12 @@ impl PropImpl for C07 {
     }
     fn from_enum(&self, _ctx: &mut Ctx, _tier: Tier, _space: usize, index: u64) -> Case {
         let li = (index / GRID) as usize;
-        Case { doc: doc_of_text(GRID_LAYOUTS[li]), s: grid_settings(index % GRID), control: None }
+        Case { doc: doc_of_text(GRID_LAYOUTS[li]), s: grid_settings(index % GRID), control: None, pre_edit: None }
     }
     fn decode(&self, ctx: &mut Ctx, t: &mut Tape) -> Case {
         if t.chance(1, 4) {
             let c = crate::props::c07c::gen_control(ctx, t);
-            return Case { doc: Doc::default(), s: grid_settings(0), control: Some(c) };
+            return Case { doc: Doc::default(), s: grid_settings(0), control: Some(c), pre_edit: None };
         }
         let s = gen_settings(t);
         let o = doc::DocOpts { max_paras: 3, max_fields: 4, max_lines: 3, min_paras: if matches!(s.level, Level::Doc | Level::DocOnly) { 0 } else { 1 }, ..Default::default() };
@@ -624,7 +637,21 @@ impl PropImpl for C07 {
                 }
             }
         }
-        Case { doc, s, control: None }
+        // now and then the document is edited (content unchanged) before it is reformatted
+        let mut pre_edit = None;
+        if t.chance(1, 6) && !doc.paras.is_empty() {
+            let pk = t.below(doc.paras.len());
+            if !doc.paras[pk].fields.is_empty() {
+                let fk = t.below(doc.paras[pk].fields.len());
+                let f = &doc.paras[pk].fields[fk];
+                let first_of_name = doc.paras[pk].fields.iter().position(|g| g.name == f.name) == Some(fk);
+                let plain = f.lines.iter().enumerate().all(|(i, l)| (i == 0 || !l.is_empty()) && !l.starts_with([' ', '\t']) && !l.ends_with([' ', '\t'])) && !f.lines[0].is_empty();
+                if first_of_name && plain {
+                    pre_edit = Some((pk, fk));
+                }
+            }
+        }
+        Case { doc, s, control: None, pre_edit }
     }
     fn finding_of(&self, case: &Case, f: &Failure) -> Option<&'static str> {
         if case.control.is_some() {
@@ -655,6 +682,7 @@ impl PropImpl for C07 {
             Indentation::FieldNameLength => "indent:field-name-length",
             Indentation::Spaces(1) => "indent:1",
             Indentation::Spaces(n) if n <= 4 => "indent:2-4",
+            Indentation::Spaces(n) if n > 64 => "indent:more-than-64",
             _ => "indent:5-8",
         });
         ctx.label(if s.immediate_empty_line { "immediate-empty-line:true" } else { "immediate-empty-line:false" });
@@ -682,6 +710,7 @@ impl PropImpl for C07 {
             Fmt::Upper => "fmt:upper",
         });
         crate::props::c03::doc_labels(ctx, &case.doc);
+        ctx.label_if(case.pre_edit.is_some(), "start:edited-live-document");
         let d = &case.doc;
         let non_default = s.pcmp != ParaCmp::None || s.ecmp != EntryCmp::None || s.fmt != Fmt::None || s.immediate_empty_line || s.one_liner.is_some() || s.indent != Indentation::Spaces(4);
         ctx.nontrivial = (d.has_comment() || d.has_multiline() || d.paras.len() >= 2) && non_default;
